@@ -15,7 +15,7 @@ func VP_C02_value() {
 	vp.Assume(st == vp.NBTComplete)
 	var v Value
 	if vp.Choice(2) == 1 { // previously used for another document
-		prev := []byte{1, 0, 1, 'a', 5, 0}                          // compound {a: 5b}
+		prev := []byte{1, 0, 1, 'a', 5, 0} // compound {a: 5b}
 		vp.Assume(v.UnmarshalNBT(10, &vpByteReader{b: prev, fail: -1}) == nil)
 		prev2 := []byte{3, 0, 0, 0, 2, 0, 0, 0, 7, 0, 0, 0, 8} // list of two ints
 		vp.Assume(v.UnmarshalNBT(9, &vpByteReader{b: prev2, fail: -1}) == nil)
